@@ -34,6 +34,8 @@ const (
 	c34OpTimer
 	c34OpExitIdle
 	c34OpPick
+	c34OpHealth     // health report of the live subchannel of an address
+	c34OpDeadHealth // in-flight health report of the last subchannel the balancer shut down
 )
 
 type c34Op struct {
@@ -47,7 +49,7 @@ type c34Op struct {
 }
 
 func (o *c34Op) kindName() string {
-	return [...]string{"resolver-update", "resolver-error", "subconn", "stale-subconn", "timer", "exit-idle", "pick"}[o.kind]
+	return [...]string{"resolver-update", "resolver-error", "subconn", "stale-subconn", "timer", "exit-idle", "pick", "health-update", "stale-health-update"}[o.kind]
 }
 
 // flat is the list the statement talks about: the addresses in resolver order
@@ -108,6 +110,29 @@ func c34DeadOps() []c34Op {
 	return out
 }
 
+var c34HealthShort = map[connectivity.State]string{connectivity.Ready: "health-serving", connectivity.TransientFailure: "health-notserving", connectivity.Connecting: "health-connecting"}
+
+func c34HealthOps(names ...string) []c34Op {
+	var out []c34Op
+	for _, n := range names {
+		for _, st := range []connectivity.State{connectivity.Ready, connectivity.TransientFailure, connectivity.Connecting} {
+			out = append(out, c34Op{name: n + "." + c34HealthShort[st], kind: c34OpHealth, target: n, st: st})
+		}
+	}
+	return out
+}
+
+// in-flight events of the last subchannel the balancer shut down: health
+// reports queued before its SHUTDOWN notification, and that notification itself
+// (the real channel delivers it asynchronously, after Shutdown() returned).
+func c34DeadHealthOps() []c34Op {
+	return []c34Op{
+		{name: "lastShutDown." + c34HealthShort[connectivity.Ready], kind: c34OpDeadHealth, st: connectivity.Ready},
+		{name: "lastShutDown." + c34HealthShort[connectivity.TransientFailure], kind: c34OpDeadHealth, st: connectivity.TransientFailure},
+		{name: "lastShutDown.shutdown", kind: c34OpDead, st: connectivity.Shutdown},
+	}
+}
+
 var (
 	c34OpTimerV    = c34Op{name: "advance250ms", kind: c34OpTimer}
 	c34OpRErrV     = c34Op{name: "resolverError", kind: c34OpRErr}
@@ -122,6 +147,7 @@ type c34Scenario struct {
 	depthQ   int
 	depthT   int
 	useDead  bool
+	health   bool // every resolver update enables the generic health listener (pickfirst.EnableHealthListener)
 	minState int64
 }
 
@@ -172,6 +198,22 @@ func c34Scenarios() []*c34Scenario {
 			pre: []string{"update[v4a,v4b]", "v4a.connecting", "v4a.tf", "v4b.connecting", "v4b.tf", "v4a.idle", "v4a.connecting", "v4a.ready", "v4a.idle"},
 			ops: c34Cat([]c34Op{c34OpPickV, c34OpExitIdleV}, c34SCOps("v4a", "v4b"), []c34Op{c34OpTimerV, c34Upd("v4a", "v4b")}),
 			depthQ: 7, depthT: 12, minState: 50,
+		},
+		{ // generic health listener enabled (pick_first as leaf under a health-reporting parent): READY needs raw READY + healthy;
+			// health reports also for the last shut-down subchannel until its SHUTDOWN notification is delivered
+			name:   "health-listener",
+			health: true, useDead: true,
+			ops: c34Cat([]c34Op{c34Upd("v4a"), c34Upd("v4b"), c34Upd("v4a", "v4b")},
+				c34SCOps("v4a", "v4b"), c34HealthOps("v4a", "v4b"), c34DeadHealthOps(), []c34Op{c34OpTimerV}),
+			depthQ: 8, depthT: 12, minState: 200,
+		},
+		{ // the same with the selected subchannel already READY and healthy; the empty list drops it too
+			name:   "health-listener-from-ready",
+			health: true, useDead: true,
+			pre:    []string{"update[v4a,v4b]", "v4a.connecting", "v4a.ready", "v4a.health-serving"},
+			ops: c34Cat([]c34Op{c34Upd("v4a", "v4b"), c34Upd("v4b"), c34Upd()},
+				c34SCOps("v4a", "v4b"), c34HealthOps("v4a", "v4b"), c34DeadHealthOps(), []c34Op{c34OpRErrV}),
+			depthQ: 7, depthT: 11, minState: 100,
 		},
 		{ // stale (in-flight) updates of subchannels the balancer has already shut down
 			name: "stale-updates",
@@ -230,6 +272,22 @@ func (w *c34World) step(op *c34Op) bool {
 		if !w.reported || w.S != connectivity.Idle || w.picker == nil {
 			return false
 		}
+	case c34OpHealth, c34OpDeadHealth:
+		if op.kind == c34OpHealth {
+			lives := w.liveFor(op.target)
+			if len(lives) == 0 {
+				return false
+			}
+			target = lives[len(lives)-1]
+		} else {
+			target = w.lastDead
+		}
+		// a health report reaches the listener registered since the subchannel's
+		// last connectivity update, while that update says READY (also when
+		// Shutdown() was already called but SHUTDOWN has not been delivered yet)
+		if target == nil || target.gone || target.healthListener == nil || target.state != connectivity.Ready {
+			return false
+		}
 	}
 	preInPass, prePass := w.phase == c34InPass, w.pass
 	preFrontier, preFresh := 0, false
@@ -250,6 +308,9 @@ func (w *c34World) step(op *c34Op) bool {
 		} else {
 			rs.Addresses = c34ResolverAddrs(op.addrs)
 		}
+		if w.health && (len(rs.Addresses) > 0 || len(rs.Endpoints) > 0) {
+			rs = EnableHealthListener(rs)
+		}
 		ccs := balancer.ClientConnState{ResolverState: rs}
 		if op.shuffle {
 			ccs.BalancerConfig = pfConfig{ShuffleAddressList: true}
@@ -261,6 +322,7 @@ func (w *c34World) step(op *c34Op) bool {
 		prev = target.state
 		target.state = op.st
 		target.connectPending = false
+		target.healthListener = nil // a connectivity update invalidates the health listener
 		if op.st == connectivity.Shutdown {
 			target.gone = true
 		}
@@ -269,6 +331,12 @@ func (w *c34World) step(op *c34Op) bool {
 			scs.ConnectionError = c34ErrConn
 		}
 		target.listener(scs)
+	case c34OpHealth, c34OpDeadHealth:
+		hs := balancer.SubConnState{ConnectivityState: op.st}
+		if op.st == connectivity.TransientFailure {
+			hs.ConnectionError = c34ErrConn
+		}
+		target.healthListener(hs)
 	case c34OpTimer:
 		c34Sleep250()
 	case c34OpExitIdle:
@@ -281,6 +349,23 @@ func (w *c34World) step(op *c34Op) bool {
 	log := w.log
 	w.log = nil
 	w.mu.Unlock()
+	// "the last subchannel shut down": of those shut down by this event the one
+	// that is READY, else the first by address name (deterministic although
+	// pick_first iterates a Go map)
+	var nd *c34SC
+	for _, e := range log {
+		if e.kind != c34LogShutdown || e.sc == w.lastDead {
+			continue
+		}
+		s := e.sc
+		if nd == nil || (s.state == connectivity.Ready && nd.state != connectivity.Ready) ||
+			((s.state == connectivity.Ready) == (nd.state == connectivity.Ready) && (s.name < nd.name || (s.name == nd.name && s.id < nd.id))) {
+			nd = s
+		}
+	}
+	if nd != nil {
+		w.lastDead = nd
+	}
 	w.modelEvent(op, target, prev)
 	w.judge(op, target, log)
 	w.checkQuiescent(op, preFrontier, preFresh, preInPass, prePass)
@@ -314,6 +399,8 @@ func (w *c34World) logString(log []c34Entry) string {
 			parts = append(parts, "ResolveNow")
 		case c34LogOther:
 			parts = append(parts, e.what)
+		case c34LogRegHealth:
+			parts = append(parts, fmt.Sprintf("#%d.RegisterHealthListener", e.sc.id))
 		}
 	}
 	return strings.Join(parts, " ")
@@ -370,7 +457,7 @@ func (w *c34World) key(useDead bool) string {
 	sb.WriteString(strings.Join(sds, " "))
 	sb.WriteString("|F:")
 	for i, s := range live {
-		fmt.Fprintf(&sb, "L%d=%s/%v/p=%v/b=%v", i, s.name, s.state, s.connectPending, s.bornSticky)
+		fmt.Fprintf(&sb, "L%d=%s/%v/p=%v/b=%v/h=%v", i, s.name, s.state, s.connectPending, s.bornSticky, s.healthListener != nil)
 		if w.phase == c34InPass {
 			f := w.flags(s)
 			fmt.Fprintf(&sb, "/c=%v,t=%v,s=%v,y=%v", f.connected, f.tfEvent, f.seenTF, f.seenBusy)
@@ -379,9 +466,9 @@ func (w *c34World) key(useDead bool) string {
 	}
 	if useDead && w.lastDead != nil {
 		d := w.lastDead
-		fmt.Fprintf(&sb, "D=%s/%v/p=%v/g=%v", d.name, d.state, d.connectPending, d.gone)
+		fmt.Fprintf(&sb, "D=%s/%v/p=%v/g=%v/h=%v", d.name, d.state, d.connectPending, d.gone, d.healthListener != nil)
 	}
-	fmt.Fprintf(&sb, "|M:%s,sticky=%v,order=%s,rep=%v,S=%v,rf=%d/%d,", c34PhaseName[w.phase], w.sticky, strings.Join(w.order, ","), w.reported, w.S, w.refreshK, w.refreshN)
+	fmt.Fprintf(&sb, "|M:%s,sticky=%v,order=%s,rep=%v,S=%v,rf=%d/%d,hl=%v/%v,", c34PhaseName[w.phase], w.sticky, strings.Join(w.order, ","), w.reported, w.S, w.refreshK, w.refreshN, w.healthKnown, w.healthSt)
 	if w.readySC != nil {
 		sb.WriteString("ready=" + scRef(w.readySC) + ",")
 	}
@@ -410,7 +497,7 @@ type c34Result struct {
 
 // c34RunHistory must be called inside a synctest bubble.
 func c34RunHistory(sc *c34Scenario, pre []int, hist []int) (res c34Result) {
-	w := &c34World{}
+	w := &c34World{health: sc.health}
 	w.cc = &c34CC{w: w}
 	w.bal = pickfirstBuilder{}.Build(w.cc, balancer.BuildOptions{}).(*pickfirstBalancer)
 	defer func() {
